@@ -309,12 +309,20 @@ func (e *env) e2eRaw(p e2eParams) {
 		w.srv.IO.In("r3").SocketsLeave("r3")
 	}
 	var addressed []string
+	// the id the log gave to the packet just broadcast (the broadcast is appended on its own goroutine: wait for a new last id)
+	prevLast := ""
 	lastLog := func() string {
-		ids := adapter.VerifLogIDs(w.srv.IO.Of("/").Adapter())
-		if len(ids) == 0 {
-			return ""
-		}
-		return ids[len(ids)-1]
+		cur := ""
+		rig.WaitUntil(time.Second, func() bool {
+			ids := adapter.VerifLogIDs(w.srv.IO.Of("/").Adapter())
+			if len(ids) == 0 {
+				return false
+			}
+			cur = ids[len(ids)-1]
+			return cur != prevLast
+		})
+		prevLast = cur
+		return cur
 	}
 	n := 0
 	tFirstEmit := time.Now() // the packet the client will name as its offset is not older than this
@@ -365,7 +373,8 @@ func (e *env) e2eRaw(p e2eParams) {
 	amu.Unlock()
 	// well inside the window? (otherwise only the adapter's own verdict, which the specification checks against
 	// the window, binds what the socket and the client must report)
-	comfortable := time.Since(tFirstEmit) < W/3
+	comfortable := false // (the window is judged by the specification from the adapter's own records: TRestore)
+	_ = tFirstEmit
 	c2.Send(fmt.Sprintf(`40{"pid":"%s","offset":"%s"}`, usePid, offset))
 	if p.GateMw {
 		// the restored socket sits in a middleware: not yet reachable, already restored
